@@ -976,6 +976,9 @@ class C08(Oracle):
                             inplace=identity_pattern(recv), not_inplace=identity_pattern(twin), value=po.to_json())
             else:
                 require(ctx.result is not recv, 'not_inplace_returns_new', op=ctx.op)
+        if k == 'join' and isinstance(ctx.result, AnsiString):
+            for val, _o in ctx.operands.values():
+                require(ctx.result is not val, 'result_is_an_operand', op=ctx.op)
         if ops.result_shape(ctx.op) == 'values' and ctx.result is not None:
             # results are not aliased: the pieces of one call are distinct objects
             its = [x for x in ctx.result if isinstance(x, AnsiString)]
@@ -1290,12 +1293,37 @@ class C15(Oracle):
                             for c in cell:
                                 ok = any((';' + c + ';') in (';' + q + ';') for q in seqs)
                                 require(ok, 'verbatim_setting_appears_intact', setting=c, flags=[op_, rs, re_], rendering=r)
+                # a character whose ONLY setting is a verbatim spelling of a known set code cannot be overridden
+                # by anything: that setting appears intact in every rendering, optimised or not
+                lone = set()
+                for cell in set(o.cells):
+                    if len(cell) == 1:
+                        tok = cell[0].split(';')[0].strip()
+                        if tok.isascii() and tok.isdigit() and (int(tok) in T.SET or int(tok) in T.EXTENDED) and s_parsable(v, cell[0]):
+                            lone.add(cell[0])
+                for (op_, rs, re_) in display.FLAG_COMBOS:
+                    if not lone:
+                        break
+                    r = v.to_str(optimize=op_, reset_start=rs, reset_end=re_)
+                    seqs = re.findall('\x1b\\[([\x30-\x3f\x20-\x2f]*)m', r)
+                    for c in sorted(lone):
+                        require(any((';' + c + ';') in (';' + q + ';') for q in seqs), 'lone_set_code_setting_is_rendered',
+                                setting=c, flags=[op_, rs, re_], rendering=r)
                 w.count('strip_checks')
             if verbatim_in_use:
                 ctx.c15_nontrivial = True
 
     def nontrivial(self, ctx):
         return getattr(ctx, 'c15_nontrivial', False)
+
+
+def s_parsable(v, code):
+    """Does the library itself call this setting parsable (then it takes the optimised path)?"""
+    for i in range(len(v.base_str)):
+        for x in v.ansi_settings_at(i):
+            if str(x) == code:
+                return bool(x.parsable)
+    return False
 
 
 ORACLES = {c.prop: c for c in (C01, C03, C04, C05, C06, C07, C08, C09, C11, C12, C13, C15, C16, C17)}
